@@ -58,6 +58,7 @@ type zzGen struct {
 	budget int
 	c09    bool
 	lite   bool // quick tier: fewer statement kinds, outcomes and iterations
+	stray  bool // inside a function body that is not inside a loop of its own
 }
 
 func (g *zzGen) tag() int { g.next++; return g.next }
@@ -84,7 +85,7 @@ func (g *zzGen) gen(depth int, inLoop bool) *zzNode {
 	g.budget--
 	kinds := []int{nLeaf, nSeq, nIf, nSwitch, nLoopInf, nLoopCond, nCFor, nForIn, nTry, nFunc, nModule}
 	if g.lite {
-		kinds = []int{nIf, nLoopInf, nLoopCond, nCFor, nForIn, nTry, nFunc}
+		kinds = []int{nIf, nSwitch, nLoopInf, nLoopCond, nCFor, nForIn, nTry, nFunc}
 	}
 	k := kinds[zz.Choose(len(kinds))]
 	n := &zzNode{k: k, tag: g.tag(), deferErr: -1}
@@ -147,7 +148,11 @@ func (g *zzGen) gen(depth int, inLoop bool) *zzNode {
 				n.deferErr = zz.Choose(nd)
 			}
 		}
+		// a stray break / continue in a function body has no enclosing loop in
+		// that invocation: it must not reach a loop of the caller
+		g.stray = true
 		n.kids = []*zzNode{g.gen(depth-1, false)}
+		g.stray = false
 	case nModule:
 		n.kids = []*zzNode{g.gen(depth-1, inLoop)}
 	}
@@ -161,6 +166,8 @@ func (g *zzGen) leaf(inLoop bool) *zzNode {
 	}
 	if inLoop {
 		outs = append(outs, oBreak, oContinue)
+	} else if g.stray {
+		outs = append(outs, oBreak)
 	}
 	return g.leafOf(outs)
 }
@@ -301,6 +308,9 @@ func (st *zzRefState) ref(n *zzNode) int {
 		// deferred calls run exactly once, LIFO, on every exit
 		for i := len(n.defers) - 1; i >= 0; i-- {
 			st.probe(n.defers[i])
+		}
+		if o == oBreak || o == oContinue {
+			return oError
 		}
 		switch o {
 		case oReturn:
